@@ -18,7 +18,7 @@ VERIF = os.path.dirname(os.path.dirname(os.path.abspath(__file__)))
 class Contract:
     def __init__(self, id, target, props, params=None, requires=(), ensures=(), raises=None, loops=None,
                  returns=None, modular=(), unroll=0, max_paths=3000, note='', setup=None, ghost=None,
-                 as_callee=False, allow_raise=(), known=None, max_recursion=1, decorators=()):
+                 as_callee=False, allow_raise=(), known=None, max_recursion=1, decorators=(), regex_env=None):
         self.id = id
         self.target = target
         self.props = list(props)
@@ -38,6 +38,7 @@ class Contract:
         self.known = known or []
         self.max_recursion = max_recursion
         self.decorators = list(decorators)
+        self.regex_env = regex_env or {}
 
 
 class SpecModule:
@@ -219,6 +220,7 @@ def verify(env, c, thorough=False):
         I = Interp(env.repo, p, env)
         fr_locals = {}
         pre = Frame(fi, fi.module, fr_locals, cls=fi.cls)
+        I._top_frame = pre
         for name, srt in c.params.items():
             if isinstance(srt, sorts.Expr):
                 fr_locals[name] = I.eval_src(srt.src, pre)
